@@ -521,7 +521,7 @@ int main(int argc, char **argv)
 		else if (!strcmp(c, "basis_order")) { int h = nxh(), rv; mpq_QSprob p = H[h]; int m = mpq_QSget_rowcount(p); int *ord = malloc((m + 1) * sizeof(int)); ev_begin(c); J_hname("h", h); arm(); rv = mpq_QSget_basis_order(p, ord); disarm(); J_int("rval", rv); if (!rv) J_iarr("order", ord, m); ev_end(p); free(ord); }
 		else if (!strcmp(c, "pivotin_row") || !strcmp(c, "pivotin_col")) { int h = nxh(), num = nxi(), rv, k; int *l = malloc((num > 0 ? num : 1) * sizeof(int)); for (k = 0; k < num; k++) l[k] = nxi(); ev_begin(c); J_hname("h", h); J_iarr("list", l, num > 0 ? num : 0); arm(); rv = c[8] == 'r' ? mpq_QSopt_pivotin_row(H[h], num, l) : mpq_QSopt_pivotin_col(H[h], num, l); disarm(); J_int("rval", rv); if (H[h]->basis) J_basisarrays(H[h]); ev_end(H[h]); free(l); }
 		else if (!strcmp(c, "compute_row_norms")) { int h = nxh(), rv; ev_begin(c); J_hname("h", h); arm(); rv = mpq_QScompute_row_norms(H[h]); disarm(); J_int("rval", rv); ev_end(H[h]); }
-		else if (!strcmp(c, "write_prob")) { int h = nxh(), rv; char *fn = nx(); char *ty = nx(); ev_begin(c); J_hname("h", h); J_str("file", fn); J_str("type", ty); arm(); rv = mpq_QSwrite_prob(H[h], fn, ty); disarm(); J_int("rval", rv); ev_end(H[h]); }
+		else if (!strcmp(c, "write_prob")) { int h = nxh(), rv; char *fn = nx(); char *ty = nx(); ev_begin(c); J_hname("h", h); J_str("file", fn); J_str("type", ty); { char *on = H[h] ? mpq_QSget_objname(H[h]) : NULL; J_str("objname", on ? on : "obj"); if (on) mpq_QSfree(on); } arm(); rv = mpq_QSwrite_prob(H[h], fn, ty); disarm(); J_int("rval", rv); ev_end(H[h]); }
 		else if (!strcmp(c, "read_prob")) { int h = nxh(); char *fn = nx(); char *ty = nx(); ev_begin(c); J_hname("h", h); J_str("file", fn); J_str("type", ty); arm(); H[h] = mpq_QSread_prob(fn, ty); disarm(); J_int("ok", H[h] ? 1 : 0); ev_end(H[h]); }
 		else if (!strcmp(c, "get_infeas")) { int h = nxh(), rv; int m = mpq_QSget_rowcount(H[h]); mpq_t *y = qalloc(m); ev_begin(c); J_hname("h", h); arm(); rv = mpq_QSget_infeas_array(H[h], y); disarm(); J_int("rval", rv); if (!rv) J_qarr("y", y, m); ev_end(H[h]); qfree(y, m); }
 		else if (!strcmp(c, "copy_conv")) { /* reduced precision copies, dumped as exact rationals */
